@@ -642,14 +642,12 @@ Proof.
   apply N.eqb_eq in H1, H2. congruence.
 Qed.
 
-Lemma stream_error_not_ok : forall ts sk c f, stream_error sk c f ts <> EOk.
+Lemma stream_error_not_ok : forall ts sk c, stream_error sk c ts <> EOk.
 Proof.
-  induction ts as [|t r IH]; intros sk c f; cbn [stream_error]; [discriminate|].
+  induction ts as [|t r IH]; intros sk c; cbn [stream_error]; [discriminate|].
   destruct sk as [d|].
   - destruct t; try apply IH.
-  - destruct t as [ns l a|ns l| | | |]; try apply IH.
-    + destruct (bytes_eqb ns ns_stream_error); apply IH.
-    + destruct f; discriminate.
+  - destruct t as [ns l a|ns l| | | |]; try apply IH. discriminate.
 Qed.
 
 Section Accept.
@@ -723,7 +721,7 @@ Proof.
   destruct t as [ns l attrs|ns l|b| |tg|]; cbn [expect_go] in H; cbn [no_end_before_start] in Hn.
   - (* start *)
     destruct (bytes_eqb ns ns_stream && bytes_eqb l (str "error")).
-    { inversion H as [[E1 E2 E3]]. exfalso. exact (stream_error_not_ok _ _ _ _ E1). }
+    { inversion H as [[E1 E2 E3]]. exfalso. exact (stream_error_not_ok _ _ _ E1). }
     destruct (bytes_eqb ns ns_stream && negb (bytes_eqb l (str "stream"))); [discriminate|].
     destruct (expect_start_ok _ _ _ _ _ _ _ _ _ H) as (A & B & C & D & E & F).
     exists [], ns, l, attrs, r. repeat split; assumption.
@@ -770,28 +768,33 @@ Ltac fa_step H IH a :=
   | destruct (bytes_eqb (a_space a) (str "xml") && bytes_eqb (a_local a) (str "lang")) ];
   specialize (IH _ _ H).
 
+(* where an address of the Info comes from: the empty attribute is the zero
+   JID, any other value goes through jid.Parse *)
+Definition addr_src (j : jid) (v : bytes) : Prop :=
+  if is_nil v then j = jid_zero else parse v = Some j.
+
 Lemma from_attrs_to_src : forall attrs i i',
   from_attrs parse attrs i = (None, i') ->
-  i_to i' = i_to i \/ has_attr attrs (str "to") (fun v => parse v = Some (i_to i')).
+  i_to i' = i_to i \/ has_attr attrs (str "to") (addr_src (i_to i')).
 Proof.
   induction attrs as [|a r IH]; intros i i' H; [inversion H; left; reflexivity|].
   fa_step H IH a; cbn in IH;
     try (destruct IH as [IH|IH]; [left; exact IH | right; apply has_attr_cons; exact IH]).
-  destruct IH as [IH|IH]; [|right; apply has_attr_cons; exact IH].
-  right. exists a. split; [left; reflexivity|]. apply is_nil_true in Sp. apply bytes_eqb_eq in L2.
-  repeat split; try assumption. rewrite IH. exact P2.
+  all: destruct IH as [IH|IH]; [|right; apply has_attr_cons; exact IH].
+  all: right; exists a; split; [left; reflexivity|]; apply is_nil_true in Sp; apply bytes_eqb_eq in L2;
+       repeat split; try assumption; unfold addr_src; rewrite V2; first [exact IH | rewrite IH; exact P2].
 Qed.
 
 Lemma from_attrs_from_src : forall attrs i i',
   from_attrs parse attrs i = (None, i') ->
-  i_from i' = i_from i \/ has_attr attrs (str "from") (fun v => parse v = Some (i_from i')).
+  i_from i' = i_from i \/ has_attr attrs (str "from") (addr_src (i_from i')).
 Proof.
   induction attrs as [|a r IH]; intros i i' H; [inversion H; left; reflexivity|].
   fa_step H IH a; cbn in IH;
     try (destruct IH as [IH|IH]; [left; exact IH | right; apply has_attr_cons; exact IH]).
-  destruct IH as [IH|IH]; [|right; apply has_attr_cons; exact IH].
-  right. exists a. split; [left; reflexivity|]. apply is_nil_true in Sp. apply bytes_eqb_eq in L3.
-  repeat split; try assumption. rewrite IH. exact P3.
+  all: destruct IH as [IH|IH]; [|right; apply has_attr_cons; exact IH].
+  all: right; exists a; split; [left; reflexivity|]; apply is_nil_true in Sp; apply bytes_eqb_eq in L3;
+       repeat split; try assumption; unfold addr_src; rewrite V3; first [exact IH | rewrite IH; exact P3].
 Qed.
 
 Lemma from_attrs_id_src : forall attrs i i',
@@ -845,13 +848,13 @@ Proof.
   - apply Ht.
 Qed.
 
-Lemma skip_node : forall n d c f r,
-  stream_error (Some d) c f (flatten n ++ r) = stream_error (Some d) c f r.
+Lemma skip_node : forall n d c r,
+  stream_error (Some d) c (flatten n ++ r) = stream_error (Some d) c r.
 Proof.
-  induction n as [b|ns l a ks IHks] using node_ind2; intros d c f r.
+  induction n as [b|ns l a ks IHks] using node_ind2; intros d c r.
   - reflexivity.
   - cbn [flatten app stream_error].
-    assert (K : forall d' r', stream_error (Some d') c f (flat_map flatten ks ++ r') = stream_error (Some d') c f r').
+    assert (K : forall d' r', stream_error (Some d') c (flat_map flatten ks ++ r') = stream_error (Some d') c r').
     { induction IHks as [|k ks Hk _ IHl]; intros d' r'; [reflexivity|].
       cbn [flat_map]. rewrite <- app_assoc, Hk. apply IHl. }
     rewrite <- app_assoc, K. reflexivity.
@@ -863,32 +866,22 @@ Fixpoint cond_of (kids : list node) (c : bytes) : bytes :=
   match kids with
   | [] => c
   | NElem ns l _ _ :: r =>
-      cond_of r (if bytes_eqb ns ns_stream_error then (if bytes_eqb l (str "text") then c else l) else c)
+      cond_of r (if bytes_eqb ns ns_stream_error && negb (bytes_eqb l (str "text")) then l else c)
   | NText _ :: r => cond_of r c
   end.
 
-(* children defined by RFC 6120: character data and elements of the stream error name space *)
-Definition defined_child (n : node) : bool :=
-  match n with
-  | NText _ => true
-  | NElem ns _ _ _ => bytes_eqb ns ns_stream_error
-  end.
-
-Lemma stream_error_defined : forall kids c ens el rest,
-  forallb defined_child kids = true ->
-  stream_error None c false (flat_map flatten kids ++ TEnd ens el :: rest) = EStream (cond_of kids c).
+Lemma stream_error_children : forall kids c ens el rest,
+  stream_error None c (flat_map flatten kids ++ TEnd ens el :: rest) = EStream (cond_of kids c).
 Proof.
-  induction kids as [|k kids IH]; intros c ens el rest H; [reflexivity|].
-  cbn [forallb] in H. apply andb_true_iff in H. destruct H as [Hk Hr].
+  induction kids as [|k kids IH]; intros c ens el rest; [reflexivity|].
   destruct k as [ns l a ks|b].
-  - cbn [defined_child] in Hk. cbn [flat_map flatten cond_of]. rewrite Hk.
-    cbn [app stream_error]. rewrite Hk.
+  - cbn [flat_map flatten cond_of]. cbn [app stream_error].
     rewrite <- !app_assoc.
-    assert (K : forall d c' r', stream_error (Some d) c' false (flat_map flatten ks ++ r') = stream_error (Some d) c' false r').
+    assert (K : forall d c' r', stream_error (Some d) c' (flat_map flatten ks ++ r') = stream_error (Some d) c' r').
     { clear. induction ks as [|k ks IHl]; intros d c' r'; [reflexivity|].
       cbn [flat_map]. rewrite <- app_assoc, skip_node. apply IHl. }
-    rewrite K. cbn [app stream_error]. apply IH. exact Hr.
-  - cbn [flat_map flatten app stream_error cond_of]. apply IH. exact Hr.
+    rewrite K. cbn [app stream_error]. apply IH.
+  - cbn [flat_map flatten app stream_error cond_of]. apply IH.
 Qed.
 
 (* ------------------------------------------------------------------ *)
@@ -899,41 +892,54 @@ Variable parse : bytes -> option jid.
 
 Lemma expect_go_from_start : forall ts recv ws started deep i i' rest,
   expect_go parse recv ws started deep i ts = (EOk, i', rest) ->
-  exists ns l attrs, from_start_element parse ns l attrs i = (None, i').
+  exists ns l attrs, In (TStart ns l attrs) ts /\ from_start_element parse ns l attrs i = (None, i').
 Proof.
   induction ts as [|t r IH]; intros recv ws started deep i i' rest H; [discriminate|].
+  assert (K : forall recv ws started deep, expect_go parse recv ws started deep i r = (EOk, i', rest) ->
+              exists ns l attrs, In (TStart ns l attrs) (t :: r) /\ from_start_element parse ns l attrs i = (None, i')).
+  { intros rc w st dp G. destruct (IH _ _ _ _ _ _ _ G) as (ns' & l' & at' & I & F).
+    exists ns', l', at'. split; [right; exact I | exact F]. }
   destruct t as [ns l attrs|ns l|b| |tg|]; cbn [expect_go] in H.
   - destruct (bytes_eqb ns ns_stream && bytes_eqb l (str "error")).
-    { inversion H as [[E1 E2 E3]]. exfalso. exact (stream_error_not_ok _ _ _ _ E1). }
+    { inversion H as [[E1 E2 E3]]. exfalso. exact (stream_error_not_ok _ _ _ E1). }
     destruct (bytes_eqb ns ns_stream && negb (bytes_eqb l (str "stream"))); [discriminate|].
-    destruct (expect_start_ok _ _ _ _ _ _ _ _ _ _ H) as (_ & B & _). exists ns, l, attrs. exact B.
+    destruct (expect_start_ok _ _ _ _ _ _ _ _ _ _ H) as (_ & B & _). exists ns, l, attrs.
+    split; [left; reflexivity | exact B].
   - destruct (bytes_eqb ns ns_stream); [destruct (bytes_eqb l (str "stream")); discriminate|].
-    eapply IH; exact H.
-  - destruct (deep || all_space b); [eapply IH; exact H | discriminate].
+    eapply K; exact H.
+  - destruct (deep || all_space b); [eapply K; exact H | discriminate].
   - discriminate.
-  - destruct (negb started && bytes_eqb tg (str "xml")); [eapply IH; exact H | discriminate].
+  - destruct (negb started && bytes_eqb tg (str "xml")); [eapply K; exact H | discriminate].
   - discriminate.
 Qed.
 
-(* after an accepted header, an address is the one before or one jid.Parse produced *)
+(* a start element of the script that carries an empty "to" attribute *)
+Definition empty_to_in (ts : list tok) : Prop :=
+  exists ns l attrs, In (TStart ns l attrs) ts /\ has_attr attrs (str "to") (fun v => v = []).
+
+(* after an accepted header, an address is the one before, one jid.Parse
+   produced, or the zero JID of an empty attribute *)
 Lemma expect_to : forall recv ws i ts i' rest,
   expect parse recv ws i ts = (EOk, i', rest) ->
-  i_to i' = i_to i \/ exists v, parse v = Some (i_to i').
+  i_to i' = i_to i \/ (exists v, parse v = Some (i_to i')) \/ (i_to i' = jid_zero /\ empty_to_in ts).
 Proof.
-  intros recv ws i ts i' rest H. destruct (expect_go_from_start _ _ _ _ _ _ _ _ H) as (ns & l & attrs & F).
-  unfold from_start_element in F. destruct (from_attrs_to_src parse _ _ _ F) as [E|(a & _ & _ & _ & P)].
+  intros recv ws i ts i' rest H. destruct (expect_go_from_start _ _ _ _ _ _ _ _ H) as (ns & l & attrs & I & F).
+  unfold from_start_element in F. destruct (from_attrs_to_src parse _ _ _ F) as [E|(a & Ia & Sp & Lo & P)].
   - left. exact E.
-  - right. exists (a_val a). exact P.
+  - right. unfold addr_src in P. destruct (is_nil (a_val a)) eqn:V.
+    + right. split; [exact P|]. exists ns, l, attrs. split; [exact I|].
+      exists a. repeat split; try assumption. apply is_nil_true. exact V.
+    + left. exists (a_val a). exact P.
 Qed.
 
 Lemma expect_from : forall recv ws i ts i' rest,
   expect parse recv ws i ts = (EOk, i', rest) ->
-  i_from i' = i_from i \/ exists v, parse v = Some (i_from i').
+  i_from i' = i_from i \/ (exists v, parse v = Some (i_from i')) \/ i_from i' = jid_zero.
 Proof.
-  intros recv ws i ts i' rest H. destruct (expect_go_from_start _ _ _ _ _ _ _ _ H) as (ns & l & attrs & F).
+  intros recv ws i ts i' rest H. destruct (expect_go_from_start _ _ _ _ _ _ _ _ H) as (ns & l & attrs & I & F).
   unfold from_start_element in F. destruct (from_attrs_from_src parse _ _ _ F) as [E|(a & _ & _ & _ & P)].
   - left. exact E.
-  - right. exists (a_val a). exact P.
+  - right. unfold addr_src in P. destruct (is_nil (a_val a)); [right; exact P | left; exists (a_val a); exact P].
 Qed.
 
 Lemma round_recv s2s ws lang rid i ts i' w :
@@ -955,9 +961,13 @@ Qed.
 
 Hypothesis parse_nonzero : forall v j, parse v = Some j -> j <> jid_zero.
 
+(* One (re)start on the initiating side. The peer's address must be the one
+   established. Our own address is kept, except that a header carrying to=''
+   is tolerated like one without "to" and leaves the zero JID behind. *)
 Lemma round_init s2s ws lang rid i ts i' w :
   neg_round parse false s2s ws lang rid i ts = (NOk, i', w) ->
-  i_from i' = i_from i /\ i_to i' = i_to i /\
+  i_from i' = i_from i /\
+  (i_to i' = i_to i \/ (i_to i' = jid_zero /\ empty_to_in ts)) /\
   w = send_header ws (content_ns s2s) default_version lang (jid_string (i_from i)) (jid_string (i_to i)) [].
 Proof.
   unfold neg_round. destruct (expect parse false ws i ts) as [[e i1] r1] eqn:E.
@@ -966,26 +976,66 @@ Proof.
   destruct (negb (jid_eqb (i_to i1) jid_zero) && negb (jid_eqb (i_to i) (i_to i1))) eqn:O; [discriminate|].
   intro H; inversion H; subst. apply negb_false_iff in L. apply jid_eqb_eq in L. repeat split.
   - congruence.
-  - destruct (expect_to _ _ _ _ _ _ E) as [T|[v P]]; [exact T|].
-    apply parse_nonzero in P. apply jid_eqb_neq in P. rewrite P in O. cbn [negb andb] in O.
+  - destruct (expect_to _ _ _ _ _ _ E) as [T|[[v P]|Z]]; [left; exact T | | right; exact Z].
+    left. apply parse_nonzero in P. apply jid_eqb_neq in P. rewrite P in O. cbn [negb andb] in O.
     apply negb_false_iff in O. apply jid_eqb_eq in O. congruence.
 Qed.
 
 Lemma reset_to i : i_to (reset_info i) = i_to i. Proof. reflexivity. Qed.
 Lemma reset_from i : i_from (reset_info i) = i_from i. Proof. reflexivity. Qed.
 
-Lemma rounds_init s2s ws lang : forall rounds i i' wires,
+(* any accepted sequence of (re)starts: the peer's address never changes, our
+   own is the established one or was dropped to the zero JID *)
+Lemma rounds_init_weak s2s ws lang : forall rounds i i' wires,
   neg_rounds parse false s2s ws lang i rounds = (NOk, i', wires) ->
-  i_to i' = i_to i /\ i_from i' = i_from i.
+  i_from i' = i_from i /\ (i_to i' = i_to i \/ i_to i' = jid_zero).
 Proof.
   induction rounds as [|[rid ts] rest IH]; intros i i' wires H; cbn [neg_rounds] in H.
-  - inversion H; split; reflexivity.
+  - inversion H; split; [reflexivity | left; reflexivity].
   - destruct (neg_round parse false s2s ws lang rid (reset_info i) ts) as [[res i1] w] eqn:R.
     destruct res; try discriminate.
     destruct (neg_rounds parse false s2s ws lang i1 rest) as [[res2 i2] ws'] eqn:R2.
     inversion H; subst.
     destruct (round_init _ _ _ _ _ _ _ _ R) as (F & T & _).
-    destruct (IH _ _ _ R2) as (T2 & F2). rewrite reset_to in T. rewrite reset_from in F. split; congruence.
+    destruct (IH _ _ _ R2) as (F2 & T2). rewrite reset_to in T. rewrite reset_from in F. split; [congruence|].
+    destruct T2 as [T2|T2]; [|right; exact T2].
+    destruct T as [T|[T _]]; [left | right]; congruence.
+Qed.
+
+Definition has_empty_to (attrs : list attr) : bool :=
+  existsb (fun a => is_nil (a_space a) && bytes_eqb (a_local a) (str "to") && is_nil (a_val a)) attrs.
+
+Definition no_empty_to (ts : list tok) : bool :=
+  forallb (fun t => match t with TStart _ _ attrs => negb (has_empty_to attrs) | _ => true end) ts.
+
+Lemma no_empty_to_spec ts : no_empty_to ts = true -> ~ empty_to_in ts.
+Proof.
+  intros N (ns & l & attrs & I & (a & Ia & Sp & Lo & V)).
+  unfold no_empty_to in N. rewrite forallb_forall in N. specialize (N _ I). cbn in N.
+  apply negb_true_iff in N. unfold has_empty_to in N.
+  assert (X : existsb (fun a => is_nil (a_space a) && bytes_eqb (a_local a) (str "to") && is_nil (a_val a)) attrs = true).
+  { apply existsb_exists. exists a. split; [exact Ia|]. rewrite Sp, Lo, V. reflexivity. }
+  congruence.
+Qed.
+
+(* when no header carries an empty "to": both addresses are those the session
+   started with (a header without "to" is tolerated, it changes nothing) *)
+Lemma rounds_init s2s ws lang : forall rounds i i' wires,
+  forallb (fun r => no_empty_to (snd r)) rounds = true ->
+  neg_rounds parse false s2s ws lang i rounds = (NOk, i', wires) ->
+  i_to i' = i_to i /\ i_from i' = i_from i.
+Proof.
+  induction rounds as [|[rid ts] rest IH]; intros i i' wires N H; cbn [neg_rounds] in H.
+  - inversion H; split; reflexivity.
+  - cbn [forallb snd] in N. apply andb_true_iff in N. destruct N as [N1 N2].
+    destruct (neg_round parse false s2s ws lang rid (reset_info i) ts) as [[res i1] w] eqn:R.
+    destruct res; try discriminate.
+    destruct (neg_rounds parse false s2s ws lang i1 rest) as [[res2 i2] ws'] eqn:R2.
+    inversion H; subst.
+    destruct (round_init _ _ _ _ _ _ _ _ R) as (F & T & _).
+    destruct (IH _ _ _ N2 R2) as (T2 & F2). rewrite reset_to in T. rewrite reset_from in F.
+    destruct T as [T|[_ T]]; [split; congruence|].
+    exfalso. exact (no_empty_to_spec _ N1 T).
 Qed.
 
 Lemma rounds_recv s2s ws lang : forall rounds i i' wires,
@@ -1244,15 +1294,14 @@ Proof.
     + exists a. repeat split; try assumption. rewrite P. exact (I Rv).
 Qed.
 
-(* a complete stream error whose children are those RFC 6120 defines, after a clean prefix *)
+(* a complete stream error, whatever its children *)
 Lemma stream_error_returned parse recv ws i attrs kids ens el rest :
-  forallb defined_child kids = true ->
   expect parse recv ws i (TStart ns_stream (str "error") attrs :: flat_map flatten kids ++ TEnd ens el :: rest)
   = (EStream (cond_of kids []), i, []).
 Proof.
-  intro H. unfold expect. cbn [expect_go].
+  unfold expect. cbn [expect_go].
   change (bytes_eqb ns_stream ns_stream && bytes_eqb (str "error") (str "error")) with true. cbv iota.
-  rewrite (stream_error_defined kids [] ens el rest H). reflexivity.
+  rewrite (stream_error_children kids [] ens el rest). reflexivity.
 Qed.
 
 Lemma expect_skips_clean_prefix parse recv ws : forall pre started i ts,
@@ -1265,21 +1314,6 @@ Proof.
     destruct (IH true i ts Cl) as [E|E]; [exact E | subst; reflexivity].
   - apply andb_true_iff in H. destruct H as [D Cl]. cbn [app expect_go]. rewrite D.
     destruct (IH true i ts Cl) as [E|E]; [exact E | subst; reflexivity].
-Qed.
-
-(* the statement with an application-specific condition, and its refutation *)
-Definition stream_error_any_children_statement : Prop :=
-  forall parse recv ws i attrs kids ens el rest,
-    expect parse recv ws i (TStart ns_stream (str "error") attrs :: flat_map flatten kids ++ TEnd ens el :: rest)
-    = (EStream (cond_of kids []), i, []).
-
-Lemma stream_error_application_condition_refuted : ~ stream_error_any_children_statement.
-Proof.
-  intro H.
-  specialize (H (fun _ => None) false false info_zero []
-                [NElem ns_stream_error (str "conflict") [] []; NElem (str "urn:example:app") (str "too-many") [] []]
-                ns_stream (str "error") []).
-  vm_compute in H. discriminate H.
 Qed.
 
 (* a header that changes an established address is refused *)
@@ -1300,9 +1334,38 @@ Qed.
 Lemma changed_address_rejected_init parse s2s ws lang rid i ts res i' w :
   (forall v j, parse v = Some j -> j <> jid_zero) ->
   neg_round parse false s2s ws lang rid i ts = (res, i', w) ->
-  i_to i' <> i_to i \/ i_from i' <> i_from i ->
+  (i_to i' <> i_to i /\ i_to i' <> jid_zero) \/ i_from i' <> i_from i ->
   res <> NOk.
 Proof.
   intros Pz H C E. subst res. destruct (round_init _ Pz _ _ _ _ _ _ _ _ H) as (F & T & _).
-  destruct C; contradiction.
+  destruct C as [[C Z]|C]; [|contradiction].
+  destruct T as [T|[T _]]; contradiction.
+Qed.
+
+(* full strength on the initiating side: our own address never changes either.
+   Refuted by a header with to='' (the zero JID through JID.UnmarshalXMLAttr),
+   which the negotiator tolerates like a missing "to". *)
+Definition restart_init_statement : Prop :=
+  forall parse, (forall v j, parse v = Some j -> j <> jid_zero) ->
+  forall s2s ws lang rounds i i' wires,
+    neg_rounds parse false s2s ws lang i rounds = (NOk, i', wires) ->
+    i_to i' = i_to i /\ i_from i' = i_from i.
+
+Definition w_srv : jid := mkjid [] (str "example.net") [].
+Definition w_me : jid := mkjid (str "me") (str "example.net") [].
+Definition w_parse (v : bytes) : option jid :=
+  if bytes_eqb v (str "example.net") then Some w_srv else None.
+Definition w_rounds : list (bytes * list tok) :=
+  [([], [TStart ns_stream (str "stream")
+           [mkattr [] (str "xmlns") ns_client; mkattr [] (str "version") (str "1.0"); mkattr [] (str "id") (str "s1");
+            mkattr [] (str "from") (str "example.net"); mkattr [] (str "to") []]])].
+
+Lemma restart_init_refuted : ~ restart_init_statement.
+Proof.
+  intro H.
+  assert (Pz : forall v j, w_parse v = Some j -> j <> jid_zero).
+  { intros v j. unfold w_parse. destruct (bytes_eqb v (str "example.net")); [|discriminate].
+    intro E. inversion E. discriminate. }
+  specialize (H w_parse Pz false false [] w_rounds (mkinfo [] [] [] w_me w_srv [] (0, 0) [])).
+  vm_compute in H. destruct (H _ _ eq_refl) as [T _]. discriminate T.
 Qed.
